@@ -466,6 +466,13 @@ where
             return self.assign_fixed_biguint(layouter, BigUint::one());
         }
 
+        // With a single set bit at position 0 no modular multiplication takes
+        // place below, so `x` must be reduced explicitly.
+        if n == 1 {
+            let (_, r) = self.div_rem(layouter, x, m)?;
+            return Ok(r);
+        }
+
         let mut n = n;
         let mut tmp = x.clone();
         let mut res = None;
